@@ -44,20 +44,18 @@ package common
 
 // ───────────── integer.go (assumed: decimal / float parsing is out of subset) ─────────────
 
-//@ assume func NewIntegerFromString
-//@   modifies nothing
-//@   ensures val(v) >= 0
-//@   ensures x == ExtraStoragePriceStep ==> val(v) == 10000
-//@   ensures x == "89.87671232" ==> val(v) == 8987671232   -- C25: the amount of the last legacy mint batch (kernel/mint.go lastMintDistribution)
-
-//@ assume func NewInteger
-//@   modifies nothing
-//@   ensures val(v) == x * 100000000
+//@ -- NewIntegerFromString: VERIFIED contract in zz_contracts_c33_text_verif.go (C33): modifies nothing, val(v) >= 0 and the parsed value;
+//@ -- it now documents its panics (not a decimal / negative), so the three C05 callers, which pass string constants, `trustpre` it.
+//@ -- The clauses `x == ExtraStoragePriceStep ==> val(v) == 10000` (C05) and `x == "89.87671232" ==> val(v) == 8987671232` (C25) are kept
+//@ -- there as `assumes` (values of two string literals).
+//@ -- NewInteger: VERIFIED contract in zz_contracts_c33_text_verif.go (val(v) == x * 100000000)
 
 //@ -- formatting of amounts for error messages: total (no panic for any value, including negative ones)
+//@ -- (C33) its value IntText(val(x)): the digits with a dot before the last 8, zero-padded (zz_contracts_c33_text_verif.go)
 //@ func (x Integer) String
-//@   property C05
-//@   modifies nothing
+//@   property C05, C33
+//@   pure
+//@   ensures [format] result == IntText(val(x))
 
 // ───────────── validation.go ─────────────
 
@@ -70,6 +68,7 @@ package common
 
 //@ func (tx *SignedTransaction) GetExtraLimit
 //@   property C05
+//@   trustpre NewIntegerFromString -- (C33) its argument here is a string constant; that the constant is a non-negative decimal is assumed
 //@   requires tx != nil && OutputsOK(&tx.Transaction) && tx.Version >= TxVersionHashSignature
 //@   modifies nothing
 //@   ensures [bounds] ExtraSizeGeneralLimit <= result && result <= ExtraSizeStorageCapacity
@@ -207,6 +206,7 @@ package common
 
 //@ func GetAssetCapacity
 //@   property C05
+//@   trustpre NewIntegerFromString -- (C33) its argument here is a string constant; that the constant is a non-negative decimal is assumed
 //@   modifies nothing
 //@   ensures val(result) >= 0
 
@@ -234,6 +234,7 @@ package common
 
 //@ func (tx *Transaction) validateWithdrawalClaim
 //@   property C05
+//@   trustpre NewIntegerFromString -- (C33) its argument here is a string constant; that the constant is a non-negative decimal is assumed
 //@   requires tx != nil && store != nil && UtxoMapOK(inputs) && OutputsOK(tx) && len(tx.Outputs) >= 1 && snapTime >= CustodianGenesis(store)
 //@   modifies nothing
 //@   loop 1 invariant rangeindex + 2 < len(tx.Outputs) ==> tx.Outputs[rangeindex + 2] != nil
